@@ -4,8 +4,9 @@
 PROT_READ copy of generated topologies (refreshed: nothing may fault; unrefreshed / partially validated: exactly the
 calls the model's footprint table says write must fault, at the location the footprint names), compares the flag
 transitions of hwloc_topology_refresh and of consulting calls on the writable topology with the model, checks the
-flags after load / refresh against the model's CachesValid, and runs hwloc_components_init/fini sequentially against
-the GENERATED IR.
+flags after load / refresh against the model's CachesValid, runs hwloc_components_init/fini sequentially against
+the GENERATED IR, and runs histories of every public entry point that reaches the component registry (all paths) over a
+pool of independent topologies, comparing hwloc_components_users after every op with the model (ops `reg`, `reglive`).
 
 `conc` (tie T + search): the driver prints the generated IR and explores every interleaving of 2-4 threads running
 init/fini rounds of the GENERATED programs; a violated invariant comes back as a failing schedule (the replay).
@@ -35,7 +36,19 @@ class ReadonlyEngine(DiffEngine):
                               "mprotect(PROT_READ); all 35 consulting entries (every memattr query on every attribute) run on the "
                               "refreshed copy, a random mix on unrefreshed / partially validated copies (negative control) and on the "
                               "writable unrefreshed original (flag transitions); hwloc_components_init/fini sequences from empty and "
-                              "non-empty registries; distinct = distinct (entry, cache state, observed result)",
+                              "non-empty registries; registry histories (`reg` lines, 5 places per episode, 2-10 ops each): every public "
+                              "entry point that reaches the component registry (topology init / set_* / set_components / load / dup / "
+                              "destroy / export_xml[buffer] / free_xmlbuffer / diff_build / diff_load_xml[buffer] / "
+                              "diff_export_xml[buffer] / diff_destroy / shmem get_length / write / adopt) on its success path and on "
+                              "every early error path (invalid description, missing / unwritable file, malformed / truncated / "
+                              "wrong-root XML, empty buffer, load failing after a successful set, source not loaded, already loaded, "
+                              "TOO_COMPLEX entry first / middle / last / alone in a hand-built list or from diff_build, bad flags, bad "
+                              "fd, wrong length, busy address) over a pool of 6 independent topologies (empty / inited / configured / "
+                              "loaded / load-failed / adopted) that outlives the episodes, interleaved with the episode's topology T "
+                              "(loaded, modified-unrefreshed, refreshed), its read-only copy A and outstanding bare references; "
+                              "hwloc_components_users / the registry pointer are read after every op and compared with the model "
+                              "(Reg.runHist over the generated IR), `reglive` compares the count with the number of live topologies; "
+                              "distinct = distinct (entry, cache state, observed result)",
                          env={"VERIF_XMLDIR": os.path.join(REPO, "tests", "hwloc", "xml"), "HWLOC_HIDE_ERRORS": "2"})
 
     def fails(self, binp, d, ops):
@@ -44,13 +57,21 @@ class ReadonlyEngine(DiffEngine):
         r, cl, ml = self.replay_pair(binp, d, ops)
         if r.returncode != 0:
             return True
-        art = ("no-topology", "no-arena", "state-mismatch", "unbalanced")
+        art = ("no-topology", "no-arena", "state-mismatch", "unbalanced", "no-slot")
         nd, _, _ = compare_streams(ops, cl, ml, lambda op, c, m: "same" if c.startswith(art) else self.classify(op, c, m))
         return nd > 0
 
     def shrink(self, binp, workdir, ops):
         """the failing op needs its episode: keep the last `load` (+ the structural lines after it) and the failing line"""
         d = os.path.join(workdir, "shrink")
+        if ops and ops[-1].startswith(("reg ", "reglive ")):
+            # a registry history: the pool outlives the episodes, the count depends on every topology alive -> keep the lines
+            # that create / destroy topologies or registry references, drop the consulting calls
+            keep = ("load ", "loadbind ", "arena ", "drop", "reg ", "cinit ", "cfini ")
+            cand = [o for o in ops[:-1] if o.startswith(keep)] + ops[-1:]
+            if self.fails(binp, d, cand):
+                return ddmin(cand, lambda sub: self.fails(binp, d, sub))
+            return ddmin(ops, lambda sub: self.fails(binp, d, sub))
         last = max([i for i, o in enumerate(ops) if o.startswith(("load ", "loadbind "))] or [0])
         tail = ops[last:]
         if not self.fails(binp, d, tail):
@@ -72,6 +93,14 @@ class ReadonlyEngine(DiffEngine):
             if dist.get("wdist", 0) + dist.get("wattr", 0) == 0:
                 res["problems"].append({"what": "negative control: no consulting call faulted on an unrefreshed read-only copy "
                                                 "(the read-only check cannot see writes)", "seed": seed, "replay": "distribution: %r\n" % dist})
+            for k, why in (("reg_toocomplex", "no diff export of a list with a TOO_COMPLEX entry ran"),
+                           ("reg_err", "no early-error path of a registry entry point ran"),
+                           ("reg_with_T", "no registry op ran while the episode's topology was alive"),
+                           ("reg_pool_inited", "no registry op ran while a merely initialised topology was alive"),
+                           ("reg_adopt_ok", "no shared-memory adopt succeeded"), ("reglive", "no live-count comparison ran")):
+                if dist.get(k, 0) == 0:
+                    res["problems"].append({"what": "registry histories lost coverage: " + why, "seed": seed,
+                                            "replay": "distribution: %r\n" % dist})
             if dist.get("ro", 0) == 0:
                 res["problems"].append({"what": "no consulting call completed on a read-only copy", "seed": seed,
                                         "replay": "distribution: %r\n" % dist})
